@@ -242,60 +242,102 @@ def rule_set_algebra(ctx):
             ctx.holds('R1', 'Axis.%s: %s -> %s' % (opname, label, got), sample=T.show(v)[:200])
 
 
+FOLD_TREES = {}          # n -> association of the fold over n real axes, as found by rule_fold (used by the direction rule R13)
+
+
+def fold_tree(ctx, kinds, join):
+    """Result of _common_axis over abstract axes of the given kinds ('real' / 'placeholder' / 'empty'), found by interpreting the function (and whatever
+    helpers it calls) on abstract Axis objects whose union / intersection build a symbolic pair. Leaves are the positions of the inputs."""
+    from .. import absint
+    from ..absint import Interp, Closure, AbsObj, Undecided, Raised
+    fi = ctx.fn(AL + '_common_axis')
+    mod = fi.module
+    interp = Interp({}, {})
+
+    def pair(tag):
+        def m(obj, args, kwargs):
+            if len(args) != 1 or kwargs or not isinstance(args[0], AbsObj):
+                raise Undecided('Axis.%s called with %r' % (tag, args))
+            return mk((tag, obj.name, args[0].name), 3, 'label')
+        return m
+
+    def mk(name, length, first):
+        items = {0: first, -1: first} if length else {}
+        o = AbsObj(name, length=length, items=items, attrs={'size': length, 'name': 'x'})
+        o.methods = {'union': pair('U'), 'intersection': pair('I')}
+        o.attrs['values'] = AbsObj(('values', name), length=length, items=items, attrs={'size': length})
+        return o
+    env = {}
+    for name, f in mod.functions.items():
+        env[name] = Closure(f.node, env, interp)
+    axes = [mk(k, {'real': 3, 'single': 1, 'falsy': 1, 'placeholder': 1, 'empty': 0}[kind], None if kind == 'placeholder' else 0 if kind == 'falsy' else 'label') for k, kind in enumerate(kinds)]
+    out = interp.call_function(fi.node, [axes, join], env)
+    if not isinstance(out, AbsObj):
+        raise Undecided('_common_axis returned %r' % (out,))
+    return out.name
+
+
+def _subtrees(tree):
+    if isinstance(tree, tuple) and len(tree) == 3 and tree[0] in ('U', 'I'):
+        return [tree] + _subtrees(tree[1]) + _subtrees(tree[2])
+    return []
+
+
+def _leaves(tree):
+    if isinstance(tree, tuple) and len(tree) == 3 and tree[0] in ('U', 'I'):
+        return _leaves(tree[1]) + _leaves(tree[2])
+    return [tree]
+
+
 def rule_fold(ctx):
+    """R2: _common_axis combines *every* real input axis, in input order, with Axis.union (outer) / Axis.intersection (inner); an input is left out only when
+    it is the [None] placeholder of a broadcast dimension. Decided by interpreting _common_axis on lists of 1-4 abstract axes (real / placeholder / empty in
+    every combination): the result must be a tree of pairwise joins whose leaves are exactly the non-placeholder inputs in their order (how the joins
+    are associated - recursion or a loop, from the left or from the right - is recorded for R13, not prescribed)."""
+    import itertools
+    from ..absint import Undecided, Raised
     ctx.rule('R2', 'fold over all axes, join dispatch, per-dimension collection', 3)
     fi = ctx.fn(AL + '_common_axis')
-    AXES, JOIN = P_('axes'), P_('join')
-    for join, meth in (('outer', 'union'), ('inner', 'intersection')):
-        ev = run(ctx, fi, bind={'join': const(join)},
-                 oracle=lambda a, st: (False if (a[0] == 'cmp' and a[1] == '==' and a[3] == const(1) and 'len' in T.show(a[2]) and T.contains(a[2], AXES) and 'axes[1:]' not in T.show(a))
-                                       else False if (a[0] == 'cmp' and a[1] == 'is' and a[3] == T.CONST_NONE) else None))
-        good = False
-        for p in ret_paths(ev):
-            v = p.value
-            if v[0] == 'call' and T.call_name(v) == meth:
-                rec = T.call_receiver(v)
-                arg = v[2][0] if v[2] else None
-                rest = ('call', ('name', '_common_axis'), (('sub', AXES, ('slice', const(1), T.CONST_NONE, T.CONST_NONE)), JOIN if False else const(join)), ())
-                rest2 = ('call', ('name', '_common_axis'), (('sub', AXES, ('slice', const(1), T.CONST_NONE, T.CONST_NONE)), const(join)), ())
-                if rec == ('sub', AXES, const(0)) and arg is not None and arg[0] == 'call' and T.call_name(arg) == '_common_axis' \
-                        and arg[2][0] == ('sub', AXES, ('slice', const(1), T.CONST_NONE, T.CONST_NONE)):
-                    good = True
-                else:
-                    ctx.violated('R2', fi, 'return ' + T.show(v)[:140], '_common_axis must combine axes[0] with the common axis of axes[1:] '
-                                 '(every input takes part in the fold)', node=p.node)
-                    good = None
-            elif v[0] == 'call' and T.call_name(v) in ('union', 'intersection'):
-                ctx.violated('R2', fi, 'return ' + T.show(v)[:140], "join=%r must use Axis.%s" % (join, meth), node=p.node)
-                good = None
-        if good:
-            ctx.holds('R2', "_common_axis: join=%r -> axes[0].%s(_common_axis(axes[1:]))" % (join, meth))
-        elif good is False:
-            ctx.violated('R2', fi, "join=%r" % join, "no path combines the axes with Axis.%s" % meth)
-    # recursion end
-    ev = run(ctx, fi)
-    if not any(p.kind == 'return' and p.value == ('sub', AXES, const(0)) and any(a[0] == 'cmp' and a[1] == '==' and a[3] == const(1) and pol for a, pol in p.guards) for p in ev.paths):
-        ctx.violated('R2', fi, 'recursion end', 'a single axis must be returned unchanged (len(axes) == 1)')
-    # an operand may be left out of the fold only when it is the [None] placeholder axis of a broadcast dimension (its first label *is* None)
-    AX0 = ('sub', AXES, const(0))
-    ndrop = 0
-    for p in ret_paths(ev):
-        v = p.value
-        is_rest = v[0] == 'call' and T.call_name(v) == '_common_axis'
-        if not (v == AX0 or is_rest):
-            continue
-        if v == AX0 and any(a[0] == 'cmp' and a[1] == '==' and a[3] == const(1) and T.contains(a[2], AXES) and not T.contains(a[2], ('name', '_common_axis')) and pol for a, pol in p.guards):
-            continue                # recursion end: a single axis
-        dropped = [x for a, pol in p.guards for x in [a] if pol is True and a[0] == 'cmp' and a[1] == 'is' and a[3] == T.CONST_NONE and a[2][0] == 'sub' and a[2][2] == const(0)]
-        want_dropped = AX0 if is_rest else None
-        okd = any((d[2][1] == AX0) if is_rest else (d[2][1][0] == 'call' and T.call_name(d[2][1]) == '_common_axis') for d in dropped)
-        ndrop += 1
-        if not okd:
-            ctx.violated('R2', fi, 'operand left out of the fold', '_common_axis returns %s alone on a path that has not established that the other operand is the [None] placeholder '
-                         '(`X[0] is None`): the labels of a real input are dropped from the union / intersection (guards: %s)' % (
-                             'the common axis of axes[1:]' if is_rest else 'axes[0]', '; '.join('%s=%s' % (T.show(a)[:50], pol) for a, pol in p.guards[-3:])), node=p.node)
-    if ndrop:
-        ctx.holds('R2', '_common_axis: an operand is skipped only when its first label is None (%d paths)' % ndrop)
+    FOLD_TREES.clear()
+    nbad = 0
+    ncase = 0
+    for join, tag in (('outer', 'U'), ('inner', 'I')):
+        for n in (1, 2, 3, 4):
+            for kinds in itertools.product(['real', 'single', 'falsy', 'placeholder', 'empty'] if n < 4 else ['real', 'falsy', 'placeholder', 'empty'], repeat=n):
+                try:
+                    tree = fold_tree(ctx, kinds, join)
+                except Undecided as e:
+                    ctx.undecide('R2', '_common_axis: %s (inputs %s)' % (e, ','.join(kinds)))
+                    return
+                except Raised as e:
+                    ctx.violated('R2', fi, 'inputs %s raise %s' % (','.join(kinds), e.name), '_common_axis raises %s for the inputs (%s)' % (e.name, ', '.join(kinds)))
+                    nbad += 1
+                    continue
+                ncase += 1
+                leaves = _leaves(tree)
+                want = [k for k, kind in enumerate(kinds) if kind != 'placeholder']
+                tags = set(x[0] for x in _subtrees(tree))
+                why = None
+                if not want:
+                    if len(leaves) != 1:
+                        why = 'inputs that are all placeholders must give one of them back'
+                elif leaves != want:
+                    missing = [k for k in want if k not in leaves]
+                    extra = [k for k in leaves if k not in want]
+                    why = ('input(s) %s take no part in the %s: the labels of a real input are dropped' % (missing, 'union' if tag == 'U' else 'intersection')) if missing else \
+                        ('the placeholder input(s) %s are joined in (their label None would enter the result)' % extra) if extra else \
+                        'the inputs are joined in another order (%s) than they were given' % leaves
+                elif tags - {tag}:
+                    why = "join=%r must use Axis.%s" % (join, 'union' if tag == 'U' else 'intersection')
+                if why:
+                    nbad += 1
+                    if nbad <= 3:
+                        ctx.violated('R2', fi, "join=%r inputs %s" % (join, ','.join(kinds)), '_common_axis over the inputs (%s): %s' % (', '.join(kinds), why))
+                if join == 'outer' and all(k == 'real' for k in kinds) and not why:
+                    FOLD_TREES[n] = tree
+    if not nbad:
+        ctx.holds('R2', '_common_axis: every real input joined once, in input order, placeholders skipped (%d input patterns x 2 joins)' % (ncase // 2))
+        ctx.holds('R2', '_common_axis: association of the joins for 3 inputs: %s' % (FOLD_TREES.get(3),))
     # _get_aligned_axes collection
     fi = ctx.fn(AL + '_get_aligned_axes')
     ARR = P_('arrays')
@@ -646,6 +688,9 @@ def _nonempty_fact(atom, pol):
         return None
     if atom[0] == 'unop' and atom[1] == 'not':
         return _nonempty_fact(atom[2], not pol) if isinstance(pol, bool) else None
+    # truthiness of a size: `if x.size:` / `if len(x):` / `if not x.size:`
+    if (atom[0] == 'attr' and atom[2] == 'size') or (atom[0] == 'call' and T.call_name(atom) == 'len' and len(atom[2]) == 1 and not atom[3]):
+        return sized(atom) if pol is True else None
     if atom[0] != 'cmp':
         return None
     op, a, b = atom[1], atom[2], atom[3]
@@ -763,10 +808,21 @@ def rule_fold_direction(ctx):
             return r                 # two labels: the direction union1d gave them
         return r
 
+    # the association of the joins is the one rule_fold found by interpreting _common_axis (right fold on the pinned tree)
+    if 3 not in FOLD_TREES or 4 not in FOLD_TREES:
+        try:
+            for n in (3, 4):
+                FOLD_TREES[n] = fold_tree(ctx, ['real'] * n, 'outer')
+        except Exception as e:
+            ctx.undecide('R13', 'the association of the fold could not be determined: %s' % e)
+            return
+
     def fold(seq):
-        if len(seq) == 1:
-            return seq[0]
-        return union(seq[0], fold(seq[1:]))
+        def ev(tree):
+            if isinstance(tree, tuple) and len(tree) == 3 and tree[0] in ('U', 'I'):          # (a wrong join method is R2's finding; R13 only needs the association)
+                return union(ev(tree[1]), ev(tree[2]))
+            return seq[tree]
+        return ev(FOLD_TREES[len(seq)])
     failing = []
     nseq = 0
     for n in (3, 4):
